@@ -34,6 +34,7 @@ import (
 	"sync/atomic"
 	"time"
 
+	"github.com/elastos/Elastos.ELA/common/config"
 	"github.com/elastos/Elastos.ELA/core/checkpoint"
 	"github.com/elastos/Elastos.ELA/core/types"
 	crstate "github.com/elastos/Elastos.ELA/cr/state"
@@ -48,6 +49,7 @@ type scenario struct {
 	warm       []string
 	alphabet   []string
 	extra      []string // thorough tier only
+	longReview bool     // crkit.ParamsLongReview instead of crkit.Params
 	warmBlocks int      // number of blocks the warm-up produces (set by validateWarmups)
 }
 
@@ -100,6 +102,19 @@ var scenarios = []*scenario{
 		extra:    []string{"e2", "imp:vi:c1:small", "rev2:A:a", "vote:v2:d"},
 	},
 	{
+		// council review of 9 blocks: A (registered at 10) voter-agreed at 21, B registered at 19,
+		// the last block before the voting period, and decided at 28 - the block in which the
+		// second committee (candidates registered at 20, voted at 26) takes office. Free blocks:
+		// the election block with B cancelled (no opinions), council-agreed (both approve) or
+		// aborted (impeachment), i.e. budget released in the same block as the committee change.
+		name:       "election-with-proposal",
+		longReview: true,
+		warm: []string{"reg:c1+reg:c2+reg:c3", "fund", "e4", "vote:v1:a", "e", "approp", "prop:A:c1", "rev2:A:a", "e7",
+			"prop:B:c2", "reg:c1+reg:c2+reg:c3", "e5", "vote:v1:a"},
+		alphabet: []string{"e", "rev2:B:a", "rev:c1:B:r", "imp:vi:c1:big", "wd:A", "vote:v2:d"},
+		extra:    []string{"e2", "trk:A:progress", "unvote:v1", "imp:vi:c2:big", "realwd"},
+	},
+	{
 		// the first committee's duty is about to end (second voting period 20..27, change at 28):
 		// A voter-agreed with its imprest requested, B in council review.
 		name: "re-election",
@@ -141,10 +156,17 @@ type inst struct {
 	err  string
 }
 
+func (sc *scenario) params() *config.Configuration {
+	if sc.longReview {
+		return crkit.ParamsLongReview()
+	}
+	return crkit.Params()
+}
+
 func histKey(sc *scenario, hist []string) string { return sc.name + "|" + strings.Join(hist, ",") }
 
 func newInst(sc *scenario) *inst {
-	in := &inst{sc: sc, w: crkit.NewWorld(crkit.Params())}
+	in := &inst{sc: sc, w: crkit.NewWorld(sc.params())}
 	in.D = append(in.D, nil)
 	in.CP = append(in.CP, nil)
 	in.w.Skip = func(string) bool { return true } // the warm-up was validated in main
@@ -703,7 +725,7 @@ var stopProfile func()
 
 func validateWarmups() {
 	for _, sc := range scenarios {
-		w := crkit.NewWorld(crkit.Params())
+		w := crkit.NewWorld(sc.params())
 		for _, op := range sc.warm {
 			blocks, err := w.Offer(op)
 			if err != nil {
